@@ -478,6 +478,13 @@ class Spec:
     def event_at(self, k):
         return z3.Select(self.tr, self.tr_old_len + k)
 
+    # positions counted from the entry of the FUNCTION (in loop invariants event_at counts from the loop's entry)
+    def fn_event_at(self, k):
+        return z3.Select(self.tr, self.fn_tr_old_len + k)
+
+    def fn_n_events(self):
+        return self.trlen - self.fn_tr_old_len
+
 
 def _b(x):
     if isinstance(x, bool):
